@@ -41,6 +41,7 @@ def run(ctx):
     loop_exit(ctx)
     binding(ctx)
     confinement(ctx)
+    registry_writers(ctx)
     registration(ctx)
 
 
@@ -1154,6 +1155,37 @@ def binding(ctx):
 
 
 # ------------------------------------------------------------------------------------------------
+def registry_writers(ctx):
+    """layering: the registry of items and the map of modules are written by SemanticState (registration, storing the result of a
+    builder under the path it was asked for) and by the registry's own methods, never by a builder, the module, a helper of the
+    type / enum / function layer or the backend.  A builder that edits *another* item's entry (its visibility, its state) makes
+    that item's output depend on whoever happened to be resolved before it (C19 / C09)."""
+    P = ctx.prog
+    W = re.compile(r'TypeRegistry::(get_mut|add)$')
+    WM = re.compile(r'HashMap::<K, V, S(, A)?>::(get_mut|insert|entry|values_mut|iter_mut|remove|retain|clear|drain|extend)$')
+    bad, n = [], 0
+    for f in P.fns.values():
+        if f.raw.get('derived'):
+            continue
+        base = re.sub(r'(::\{closure#\d+\})+$', '', f.id)
+        for c in f.calls():
+            p = c['path'] or ''
+            full = (c['callee'].get('rfull') or c['callee'].get('full') or '') if c.get('callee') else ''
+            hit = None
+            if W.search(p):
+                hit = short(p)
+            elif WM.search(p) and re.search(r'HashMap::<grammar::ItemPath, semantic::(module::Module|types::ItemDefinition)>', full):
+                hit = 'map of ' + ('modules' if 'module::Module' in full else 'items') + '.' + p.split('::')[-1]
+            if hit is None:
+                continue
+            n += 1
+            allowed = base.startswith('semantic::semantic_state::SemanticState::') or base.startswith('semantic::type_registry::TypeRegistry::')
+            if not allowed:
+                bad.append('%s writes %s (%s)' % (short(base), hit, loc(c['span'])))
+    ctx.ob(['C19', 'C09', 'C14', 'C10'], 'R-REACH', 'registry-writers', not bad and n >= 8,
+           'the item registry and the module map are written only by SemanticState and by TypeRegistry\'s own methods (%d write sites): %s' % (n, bad[:3]))
+
+
 def confinement(ctx):
     P = ctx.prog
     # D1 no global mutable state
